@@ -75,6 +75,10 @@ class Judge:
             # theorem C02_back_only_with_one_attempt: in the model nobody who was out is in again unless a jump-off is on
             fail('an athlete who is out stays out unless re-instated for a jump-off', 'bib %s is back in, state %s' % (','.join(str(b) for b in back), c.state),
                  'out, then in again although no jump-off is on')
+        if out == 'ok' and st0 != 'jumpoff' and c.state == 'jumpoff' and not any('o' in cell for j in c.jumpers for cell in j.attempts_by_height):
+            # a jump-off breaks a tie for first place; athletes without a clearance have no place (C03: "unplaced"), so there is no such tie
+            fail('finished (nobody has cleared a height: nobody is placed, there is no tie for first to break)', 'jumpoff',
+                 'a jump-off is started among athletes none of whom has cleared a height')
         if st0 in ('finished', 'drawn') and out == 'ok':
             fail('nothing is accepted once finished or drawn', out, 'accepted in a terminal state')
         return out, out + '|' + after
